@@ -72,3 +72,26 @@ def set_now(t):
 
 def now():
     return CLOCK.now
+
+
+class tz(object):
+    """context manager: run with the process time zone set to a POSIX TZ string (instants are UTC whatever the local zone is)"""
+    def __init__(self, name):
+        self.name = name
+
+    def __enter__(self):
+        import os, time as _t
+        self.old = os.environ.get('TZ')
+        if self.name:
+            os.environ['TZ'] = self.name
+            _t.tzset()
+        return self
+
+    def __exit__(self, *a):
+        import os, time as _t
+        if self.name:
+            if self.old is None:
+                os.environ.pop('TZ', None)
+            else:
+                os.environ['TZ'] = self.old
+            _t.tzset()
